@@ -153,8 +153,25 @@ def failures(gi, diags):
         msg = d.get('message', '')
         if msg.startswith('aborting due to'):
             continue
-        spans = [s for s in d.get('spans', []) if s.get('file_name', '').endswith('enr_verus.rs')]
-        ext_spans = [s for s in d.get('spans', []) if not s.get('file_name', '').endswith('enr_verus.rs')]
+        def at_call_site(sp):
+            # a span inside a macro expansion (`write!`, `format!`, ...) is followed out to the call site in the generated file
+            seen = 0
+            while sp and not sp.get('file_name', '').endswith('enr_verus.rs') and sp.get('expansion') and seen < 8:
+                sp = (sp.get('expansion') or {}).get('span')
+                seen += 1
+            return sp
+        all_spans = []
+        for s0 in d.get('spans', []):
+            s1 = at_call_site(s0)
+            if s1 and s1 is not s0 and s1.get('file_name', '').endswith('enr_verus.rs'):
+                s1 = dict(s1)
+                s1['is_primary'] = s0.get('is_primary')
+                s1['label'] = s0.get('label')
+                all_spans.append(s1)
+            else:
+                all_spans.append(s0)
+        spans = [s for s in all_spans if s.get('file_name', '').endswith('enr_verus.rs')]
+        ext_spans = [s for s in all_spans if not s.get('file_name', '').endswith('enr_verus.rs')]
         fn = None
         clause_line = None
         body_line = None
@@ -184,7 +201,7 @@ def failures(gi, diags):
         # error, whatever its wording
         rustc_code = ((d.get('code') or {}).get('code') or '')
         kind = 'tool' if re.match(r'^E\d{4}$', rustc_code) else classify(msg)
-        out.append({'kind': kind, 'message': msg, 'fn': (f[2] or f[1]) if f else None, 'src': f[3] if f else None,
+        out.append({'kind': kind, 'message': msg, 'code': rustc_code, 'fn': (f[2] or f[1]) if f else None, 'src': f[3] if f else None,
                     'hint': gi.hint_at(pline) if pline else None, 'pline': pline,
                     # the failed `requires` clause lies in another file (vstd): the precondition of a std function
                     'clause_ext': any(('failed precondition' in (s2.get('label') or '')) for s2 in ext_spans),
